@@ -255,8 +255,12 @@ func drawConv(t *rapid.T, idx int, allowAmbiguous bool) *Conv {
 	if c.V6 {
 		pool = hosts6
 	}
-	if c.Ambiguous {
-		// a private address pair, so that the candidate keys of this conversation cannot coincide with any other record
+	portless := c.Kind == "icmp-echo" || c.Kind == "icmp-oneway" || c.Kind == "other-oneway"
+	if c.Ambiguous || portless {
+		// a private address pair, so that the candidate keys of this conversation cannot coincide with any other record.
+		// Conversations without ports need one as well: the flow key of a portless protocol consists of the address pair
+		// only, so two of them on one host pair (e.g. an echo exchange and an unsolicited ICMP message the other way)
+		// are one conversation as far as the flow log can tell
 		if c.V6 {
 			c.Cip, c.Sip = ip6(fmt.Sprintf("2001:db8:99:%x::1", idx)), ip6(fmt.Sprintf("2001:db8:99:%x::2", idx))
 		} else {
